@@ -2,7 +2,7 @@
 from ..core import Anchor
 from ..model import op_values
 from ..tree import mir_name, path_of, show, show_stmt, walk, where
-from . import loaderx
+from . import loadeval as loaderx
 from .trav import Trav, expected_module_all
 
 EXPLANATION = (
